@@ -112,6 +112,7 @@ struct span {
     explicit(extent != dynamic_extent) constexpr span(It first, size_type count)
         : _storage{first, count}
     {
+        TETL_PRECONDITION(extent == dynamic_extent or count == extent);
     }
 
     /// Constructs a span. From a c style array.
@@ -153,6 +154,7 @@ struct span {
     explicit(extent != dynamic_extent) constexpr span(R&& r)
         : _storage{r.data(), ranges::size(r)}
     {
+        TETL_PRECONDITION(extent == dynamic_extent or ranges::size(r) == extent);
     }
 
     template <detail::span_convertible_from<T> U, size_t N>
@@ -160,6 +162,7 @@ struct span {
     explicit(extent != dynamic_extent and N == dynamic_extent) constexpr span(span<U, N> const& source) noexcept
         : _storage{source.data(), source.size()}
     {
+        TETL_PRECONDITION(extent == dynamic_extent or source.size() == extent);
     }
 
     /// \brief Constructs a span.
